@@ -74,6 +74,23 @@ def cases(tier, seed):
                 for k in ((1, min(n, p)) if tier == "quick" else range(1, min(n, p) + 1)):
                     for solver in (["full"] if tier == "quick" else solvers):
                         out.append(dict(model="EOF", cplx=False, shape=[n, p], spec="geometric", scale=1.0, center=c, standardize=s, coslat=cl, weights=w, n_modes=k, solver=solver, store=store))
+    # ---- floating-point storage other than native float64: single precision (judged at single-precision accuracy) and
+    #      big-endian doubles (what a netCDF/GRIB reader may hand over); the reference uses the stored numbers as float64
+    for mdl in ("EOF", "HilbertEOF") if tier == "quick" else ("EOF", "HilbertEOF", "ExtendedEOF"):
+        for store in ("float32", ">f8") if tier == "quick" else ("float32", ">f8", ">f4", "float16"):
+            for (n, p) in ([(12, 6)] if tier == "quick" else [(12, 6), (6, 4), (4, 6)]):
+                for spec in (["geometric"] if tier == "quick" else ["geometric", "rank_def"]):
+                    for (c, s, cl, w) in flags_all:
+                        for k in ((2, min(n, p)) if tier == "quick" else range(1, min(n, p) + 1)):
+                            for solver in (["full", "randomized"] if tier == "quick" else solvers):
+                                d = dict(model=mdl, cplx=False, shape=[n, p], spec=spec, scale=1.0, center=c, standardize=s, coslat=cl, weights=w, n_modes=k, solver=solver, store=store)
+                                if mdl == "HilbertEOF":
+                                    d["padding"] = None
+                                if mdl == "ExtendedEOF":
+                                    if k > 4:
+                                        continue
+                                    d.update(tau=1, embedding=2, n_pca_modes=None)
+                                out.append(d)
     # ---- HilbertEOF   (13 samples: an odd, prime length - no FFT fast path, no Nyquist bin)
     for padding in (None, "exp"):
         for (n, p) in ([(12, 6), (6, 4), (13, 3)] if tier == "quick" else [(6, 4), (9, 6), (12, 6), (8, 1), (13, 3), (11, 4)]):
@@ -111,7 +128,11 @@ def build_input(case, seed):
     nlat, nlon = GRID[p]
     lats = LATS[nlat]
     store = case.get("store")
-    if store:
+    if store and ("f" in store):
+        da = D.da_grid(X.astype(store), nlat, nlon, lats=lats)
+        assert da.dtype == np.dtype(store)
+        X = da.values.reshape(n, -1).astype("float64")  # the stored numbers, exactly
+    elif store:
         # integer-valued numbers (non-negative for unsigned storage) held in integer storage; X stays their float64 copy
         X = np.rint(X * (40.0 / np.abs(X).max()))
         if store.startswith("u"):
@@ -148,7 +169,7 @@ def run_case(case, seed):
         m = xe.single.ExtendedEOF(tau=case["tau"], embedding=case["embedding"], n_pca_modes=case["n_pca_modes"], **kw)
     feats = dict(solver=case["solver"], center=case["center"], cplx=case["cplx"])
     if case.get("store"):
-        feats["store"] = "integer"
+        feats["store"] = "float" if "f" in case["store"] else "integer"
     V = []
 
     def bad(check, msg, **extra):
@@ -230,6 +251,9 @@ def run_case(case, seed):
     smax = max(sref[0], 1e-300)
     exact = case["solver"] == "full"
     tol = 1e-9 if exact else 1e-7
+    st = case.get("store") or ""
+    if "f" in st and st != ">f8":
+        tol = 2e-2 if st == "float16" else 2e-5  # results are judged at the accuracy of the storage type
     # zero padding if k exceeds len(sref) cannot happen: k <= min(shape)
 
     # (a) orthonormal components
